@@ -435,6 +435,19 @@ def bounded(tier, seed):
                         e = H.arr_equal(r.variables['w'][...], exp, exact=False)
                     return e or H.same_snapshot(sa, H.snapshot(a))
                 run.case('C06:eval', (dt, masked, expr), t)
+    # eval on a file that has a GLOBAL ATTRIBUTE with the name of a variable the expression reads: the file's ARRAY is what is evaluated
+    for dt in ('f4', 'i4'):
+        for masked in (False, True):
+            def t_clash(dt=dt, masked=masked):
+                a = mk(dt, 3, False, masked)
+                a.v = 1000.0                    # global attribute named like the variable v
+                a.scale = 3                     # an attribute that is NOT a variable name stays usable in expressions
+                r = a.eval('w = v * 2 + scale')
+                exp = np.ma.asarray(a.variables['v'][...]) * 2 + 3
+                if 'w' not in r.variables:
+                    return 'assigned variable missing'
+                return H.arr_equal(r.variables['w'][...], exp, exact=False)
+            run.case('C06:eval with a global attribute named like a variable', (dt, masked), t_clash)
     # mask(): all predicate combinations
     thr = dict(less=-1.0, less_equal=0.0, greater=3.0, greater_equal=3.0, values=1.0, equal=0.0)
     keys = list(thr)
